@@ -535,7 +535,11 @@ func coalesce(r YangRange) YangRange {
 		// r1 starts inside of cr[i]
 		// r1.Min cr[i].Max+1
 		// r1 is beyond cr[i]
-		if cr[i].Max.addQuantum(1).Less(r1.Min) {
+		// next is the value following cr[i].Max; when cr[i].Max is the
+		// largest representable value the addition wraps and nothing
+		// can start beyond it.
+		next := cr[i].Max.addQuantum(1)
+		if cr[i].Max.Less(next) && next.Less(r1.Min) {
 			// r1 starts after cr[i], this is a new range
 			i++
 			cr[i] = r1
